@@ -61,6 +61,7 @@ const preludeStr = `(assert (forall ((s Str)) (! (>= (slen s) 0) :pattern ((slen
 (assert (forall ((s Str) (a Int) (b Int) (i Int)) (! (=> (and (<= 0 a) (<= a b) (<= b (slen s)) (<= 0 i) (< i (- b a))) (= (sat (ssub s a b) i) (sat s (+ a i)))) :pattern ((sat (ssub s a b) i)))))
 (assert (forall ((s Str)) (! (= (ssub s 0 (slen s)) s) :pattern ((ssub s 0 (slen s))))))
 (assert (forall ((s Str) (a Int) (b Int) (c Int) (d Int)) (! (=> (and (<= 0 a) (<= a b) (<= b (slen s)) (<= 0 c) (<= c d) (<= d (- b a))) (= (ssub (ssub s a b) c d) (ssub s (+ a c) (+ a d)))) :pattern ((ssub (ssub s a b) c d)))))
+(assert (forall ((a Str) (b Str)) (! (and (= (ssub (scat a b) 0 (slen a)) a) (= (ssub (scat a b) (slen a) (+ (slen a) (slen b))) b)) :pattern ((scat a b)))))
 (assert (forall ((a Str)) (! (= (scat a str.empty) a) :pattern ((scat a str.empty)))))
 (assert (forall ((a Str)) (! (= (scat str.empty a) a) :pattern ((scat str.empty a)))))
 (assert (forall ((a Str)) (! (not (slt a a)) :pattern ((slt a a)))))
